@@ -218,6 +218,43 @@ def _rolled_back(ctx, f, t):
     return False
 
 
+def _prevalidation_before_first_change_missing(ctx, f, names, firsts):
+    """the validation calls exist in f and dominate every statement that the engine names as the first change on a path to
+    the refusing statement (a first change that is itself one of the validation calls - the engine over-approximates
+    what a call on a throw-away record writes - needs nothing in front of it)"""
+    g = ctx.cfg(f)
+    dom = g.dominators()
+    vstmts = []
+    for n in ctx.own_nodes(f):
+        if isinstance(n, ast.Call) and isinstance(n.func, ast.Attribute) and n.func.attr in names:
+            st = ctx.enclosing_stmt(f, n)
+            if g.node_of(st) is not None:
+                vstmts.append(st)
+    for name in names:
+        if not any(isinstance(c, ast.Call) and isinstance(c.func, ast.Attribute) and c.func.attr == name for st in vstmts for c in ast.walk(st)):
+            return 'no call of %s is left in %s' % (name, f.name)
+    for first in sorted(firsts):
+        if any(first.endswith('.' + nm) or first.endswith(' ' + nm) for nm in names):
+            continue
+        what = first[5:] if first.startswith('call ') else first
+        cands = []
+        for n in ctx.own_nodes(f):
+            if isinstance(n, ast.stmt) and not isinstance(n, (ast.FunctionDef, ast.ClassDef)):
+                for c in ast.walk(n):
+                    if (isinstance(c, ast.Call) and norm(c.func) == what) or norm(n)[:len(what)] == what:
+                        st = n
+                        if g.node_of(st) is not None:
+                            cands.append(st)
+                        break
+        if not cands:
+            return 'the first change `%s` could not be located again' % first
+        for st in cands:
+            sn = g.node_of(st)
+            if not any(g.node_of(v).id in dom.get(sn.id, ()) for v in vstmts):
+                return 'the first change `%s` (line %d) is not preceded by a call of %s on every path' % (first, st.lineno, '/'.join(names))
+    return None
+
+
 def _prevalidation_in_callers_missing(ctx, engine, f, names):
     """the validation calls live in the callers of the helper f: in every function that calls f, each named validation
     call occurs in a statement that dominates (or structurally precedes) the call of f and comes before that caller's
@@ -715,7 +752,9 @@ def vbmrule(ctx):
                 continue
         if ent is not None and f is not None:
             used_preval.add('%s|%s' % (ent['function'], ent['statement']))
-            if ent.get('validated_in_callers'):
+            if ent.get('before_first_change'):
+                missing = _prevalidation_before_first_change_missing(ctx, f, ent['validated_by'], d['first'])
+            elif ent.get('validated_in_callers'):
                 missing = _prevalidation_in_callers_missing(ctx, e, f, ent['validated_by'])
             else:
                 missing = _prevalidation_missing(ctx, e, f, k[1], ent['validated_by'], ent.get('rolled_back', False))
